@@ -224,17 +224,21 @@ def brentTrial (s : Bt) (xm tol1 tol2 : Rat) : Rat × Rat × Rat :=
       else (d, s.d, mins [m, mc ua tol2, mc bu tol2])
   else (golden.1, golden.2.1, rmin (mc (rabs s.e) tol1) golden.2.2)
 
-/-- one pass through the `for` body; `none` = the convergence test fired (return `x`) -/
-def brentIter (tol : Rat) (s : Bt) : Option (Bt × Ev) :=
+inductive BtStep where
+  | stop (m : Rat)            -- the convergence test fired (return `x`); margin of that test
+  | next (s : Bt) (ev : Ev)
+
+/-- one pass through the `for` body -/
+def brentIter (tol : Rat) (s : Bt) : BtStep :=
   let xm := rnd ((1/2) * rnd (s.a + s.b))
   let tol1 := rnd (rnd (tol * rabs s.x) + ZEPS)
   let tol2 := rnd (2 * tol1)
   let lhs := rabs (rnd (s.x - xm))
   let hw := rnd ((1/2) * rnd (s.b - s.a))
   let rhs := rnd (tol2 - hw)
-  if lhs ≤ rhs then none
+  let mstop := mg (lhs - rhs) (lhs + rabs tol2 + rabs hw)
+  if lhs ≤ rhs then .stop (rmin s.pm mstop)
   else
-    let mstop := mg (lhs - rhs) (lhs + rabs tol2 + rabs hw)
     let tr := brentTrial rnd s xm tol1 tol2
     let d := tr.1
     let e := tr.2.1
@@ -244,23 +248,23 @@ def brentIter (tol : Rat) (s : Bt) : Option (Bt × Ev) :=
     if fu ≤ s.fx then
       let a := if u ≥ s.x then s.x else s.a
       let b := if u ≥ s.x then s.b else s.x
-      some ({ a := a, b := b, d := d, e := e, x := u, w := s.x, v := s.w, fx := fu, fw := s.fx, fv := s.fw,
-              pm := mc fu s.fx }, (u, mu))
+      .next ({ a := a, b := b, d := d, e := e, x := u, w := s.x, v := s.w, fx := fu, fw := s.fx, fv := s.fw,
+              pm := mc fu s.fx } : Bt) (u, mu)
     else
       let a := if u < s.x then u else s.a
       let b := if u < s.x then s.b else u
       if fu ≤ s.fw ∨ s.w = s.x then
-        some ({ s with a := a, b := b, d := d, e := e, v := s.w, w := u, fv := s.fw, fw := fu,
-                       pm := rmin (mc fu s.fx) (mc fu s.fw) }, (u, mu))
+        .next ({ s with a := a, b := b, d := d, e := e, v := s.w, w := u, fv := s.fw, fw := fu,
+                       pm := rmin (mc fu s.fx) (mc fu s.fw) }) (u, mu)
       else if fu ≤ s.fv ∨ s.v = s.x ∨ s.v = s.w then
-        some ({ s with a := a, b := b, d := d, e := e, v := u, fv := fu,
-                       pm := mins [mc fu s.fx, mc fu s.fw, mc fu s.fv] }, (u, mu))
+        .next ({ s with a := a, b := b, d := d, e := e, v := u, fv := fu,
+                       pm := mins [mc fu s.fx, mc fu s.fw, mc fu s.fv] }) (u, mu)
       else
-        some ({ s with a := a, b := b, d := d, e := e,
-                       pm := mins [mc fu s.fx, mc fu s.fw, mc fu s.fv] }, (u, mu))
+        .next ({ s with a := a, b := b, d := d, e := e,
+                       pm := mins [mc fu s.fx, mc fu s.fw, mc fu s.fv] }) (u, mu)
 
 inductive Out1 where
-  | ok (xmin fmin : Rat)   -- `x_min`, `f_min`
+  | ok (xmin fmin : Rat) (m : Rat)   -- `x_min`, `f_min`; margin of the final convergence test
   | tooMany                -- "Too many iterations": diagnostic + exit
   | noBracket              -- fuel of the bracketing loop exhausted (non-termination in the C++)
   deriving Repr
@@ -270,8 +274,8 @@ def brentLoop (tol : Rat) : Nat → Bt → Out1 × List Ev
   | 0, _ => (.tooMany, [])
   | n + 1, s =>
     match brentIter rnd f tol s with
-    | none => (.ok s.x s.fx, [])
-    | some (s', ev) =>
+    | .stop m => (.ok s.x s.fx m, [])
+    | .next s' ev =>
       let r := brentLoop tol n s'
       (r.1, ev :: r.2)
 
@@ -371,13 +375,13 @@ def swap0 {α} (l : List α) (i : Nat) (dflt : α) : List α :=
   (l.set 0 (l.getD i dflt)).set i (l.getD 0 dflt)
 
 inductive OutN where
-  | ok (pmin : Pt) (fmin : Rat) (s : NM)
+  | ok (pmin : Pt) (fmin : Rat) (s : NM) (m : Rat)   -- margin of the final `rtol < ftol`
   | nmax                   -- "NMAX exceeded": diagnostic + exit
   | fuel                   -- fuel exhausted (unreachable with fuel > NMAX)
   deriving Repr
 
 inductive NMStep where
-  | done (pmin : Pt) (fmin : Rat) (s : NM)
+  | done (pmin : Pt) (fmin : Rat) (s : NM) (m : Rat)
   | nmax
   | cont (s : NM) (tr : List EvN)
 
@@ -390,7 +394,7 @@ def nmStep (ftol : Rat) (ndim : Nat) (s : NM) : NMStep :=
   if rtol < ftol then
     let y' := swap0 s.y c.ilo 0
     let p' := swap0 s.p c.ilo []
-    .done (p'.getD 0 []) (y'.getD 0 0) { s with y := y', p := p' }
+    .done (p'.getD 0 []) (y'.getD 0 0) { s with y := y', p := p' } (rmin c.m (mc rtol ftol))
   else if s.nfunc ≥ NMAX then .nmax
   else
     let m0 := rmin c.m (mc rtol ftol)
@@ -422,7 +426,7 @@ def nmLoop (ftol : Rat) (ndim : Nat) : Nat → NM → OutN × List EvN
   | 0, _ => (.fuel, [])
   | n + 1, s =>
     match nmStep rnd f ftol ndim s with
-    | .done pmin fmin s' => (.ok pmin fmin s', [])
+    | .done pmin fmin s' m => (.ok pmin fmin s' m, [])
     | .nmax => (.nmax, [])
     | .cont s' tr =>
       let r := nmLoop ftol ndim n s'
